@@ -7,8 +7,9 @@ Local Open Scope N_scope.
    crash outcome (any subsequence of the not-yet-synced directory operations survives):
    if the durable meta.json is generation g then every file g references is present under its
    name with complete, fsynced data (nothing partial or un-synced is needed), g is a generation
-   that was started, and g is not older than the last commit whose call returned; and once a
-   commit has returned, a durable meta.json exists. *)
+   that was started, and g is not older than the generation that was durable when the last
+   commit returned (which carries that commit's opstamp, discipline D2); and once a commit has
+   returned, a durable meta.json exists. *)
 Theorem C01_monitor_sound : forall t, monitor t = true ->
   forall k img, crash (run (firstn k t)) img ->
   let c := run (firstn k t) in
@@ -28,9 +29,12 @@ Proof. exact (fun c => conj (crash_none c) (crash_all c)). Qed.
 
 (* Non-vacuity: a concrete two-commit trace with a merge-like replacement is accepted ... *)
 Definition ex_trace : list ev :=
-  [ ESyncDir; EMetaWrite []; ESyncDir;
-    ECreate 10; ETerminate 10; ECreate 11; ETerminate 11; ESyncDir; EMetaWrite [10; 11]; ESyncDir; ECommitRet;
-    ECreate 12; ETerminate 12; ESyncDir; EMetaWrite [12]; ESyncDir; ECommitRet; EDelete 10; EDelete 11; ESyncDir ].
+  [ ESyncDir; EMetaWrite [] 0; ESyncDir;
+    ECreate 10; ETerminate 10; ECreate 11; ETerminate 11; ESyncDir; EMetaWrite [10; 11] 3; ESyncDir; ECommitRet 3;
+    (* a merge publishes the same commit again (same opstamp); it may still be pending when ... *)
+    ECreate 12; ETerminate 12; ESyncDir; EMetaWrite [12] 3; ESyncDir; EDelete 10; EDelete 11; ESyncDir;
+    ECreate 13; ETerminate 13; ESyncDir; EMetaWrite [12; 13] 7; ESyncDir;
+    ECreate 14; ETerminate 14; ESyncDir; EMetaWrite [14] 7; (* ... the commit returns *) ECommitRet 7; ESyncDir ].
 Example ex_trace_accepted : monitor ex_trace = true.
 Proof. vm_compute. reflexivity. Qed.
 
@@ -38,14 +42,14 @@ Proof. vm_compute. reflexivity. Qed.
    publishing before the directory sync, returning before the rename is durable (F4, the
    behaviour of save_metas before the fix), deleting a file the recoverable meta still needs. *)
 Theorem C01_publish_before_sync_refuted :
-  first_bad [ESyncDir; EMetaWrite []; ESyncDir; ECreate 10; ETerminate 10; EMetaWrite [10]] = Some 5.
+  first_bad [ESyncDir; EMetaWrite [] 0; ESyncDir; ECreate 10; ETerminate 10; EMetaWrite [10] 1] = Some 5.
 Proof. vm_compute. reflexivity. Qed.
 Theorem C01_return_before_rename_durable_refuted :
-  first_bad [ESyncDir; EMetaWrite []; ESyncDir; ECreate 10; ETerminate 10; ESyncDir; EMetaWrite [10]; ECommitRet] = Some 7.
+  first_bad [ESyncDir; EMetaWrite [] 0; ESyncDir; ECreate 10; ETerminate 10; ESyncDir; EMetaWrite [10] 1; ECommitRet 1] = Some 7.
 Proof. vm_compute. reflexivity. Qed.
 Theorem C01_delete_needed_file_refuted :
-  first_bad [ESyncDir; EMetaWrite []; ESyncDir; ECreate 10; ETerminate 10; ESyncDir; EMetaWrite [10]; ESyncDir; ECommitRet;
-             ECreate 11; ETerminate 11; ESyncDir; EMetaWrite [11]; EDelete 10] = Some 13.
+  first_bad [ESyncDir; EMetaWrite [] 0; ESyncDir; ECreate 10; ETerminate 10; ESyncDir; EMetaWrite [10] 1; ESyncDir; ECommitRet 1;
+             ECreate 11; ETerminate 11; ESyncDir; EMetaWrite [11] 2; EDelete 10] = Some 13.
 Proof. vm_compute. reflexivity. Qed.
 
 Print Assumptions C01_monitor_sound.
